@@ -205,14 +205,20 @@ fn spawn_segment(prop: &str, profile: &str, tier: Tier, id: usize, n: usize, ski
     let so = child.stdout.take().unwrap();
     let (tx, rx) = std::sync::mpsc::channel();
     std::thread::spawn(move || {
-        for line in BufReader::new(so).lines() {
-            match line {
-                Ok(l) => {
+        // (bytes, not `lines()`: a subject that hands out an ill-formed `str` must not be able to
+        //  cut the report channel)
+        let mut rd = BufReader::new(so);
+        let mut buf: Vec<u8> = vec![];
+        loop {
+            buf.clear();
+            match rd.read_until(b'\n', &mut buf) {
+                Ok(0) | Err(_) => break,
+                Ok(_) => {
+                    let l = String::from_utf8_lossy(&buf).trim_end().to_string();
                     if tx.send(l).is_err() {
                         break;
                     }
                 }
-                Err(_) => break,
             }
         }
     });
